@@ -46,14 +46,12 @@ func (i *BigInt) IsZero() bool {
 }
 
 func (i *BigInt) IsEven() bool {
-	bigInt := i.ToGoBigInt()
-	result := bigInt.Mod(bigInt, big.NewInt(2))
+	result := (&big.Int{}).Mod(i.ToGoBigInt(), big.NewInt(2))
 	return len(result.Bits()) == 0
 }
 
 func (i *BigInt) IsOdd() bool {
-	bigInt := i.ToGoBigInt()
-	result := bigInt.Mod(bigInt, big.NewInt(2))
+	result := (&big.Int{}).Mod(i.ToGoBigInt(), big.NewInt(2))
 	return len(result.Bits()) != 0
 }
 
@@ -964,8 +962,7 @@ func rightBitshiftBigInt[T SimpleInt](i *BigInt, other T) Value {
 	if other < 0 {
 		return SmallInt(0).ToValue()
 	}
-	iGo := i.ToGoBigInt()
-	result := ToElkBigInt(iGo.Rsh(iGo, uint(other)))
+	result := ToElkBigInt((&big.Int{}).Rsh(i.ToGoBigInt(), uint(other)))
 	if result.IsSmallInt() {
 		return result.ToSmallInt().ToValue()
 	}
@@ -1091,13 +1088,11 @@ func leftBitshiftBigInt[T SimpleInt](i *BigInt, other T) Value {
 	if other < 0 {
 		return SmallInt(0).ToValue()
 	}
-	iGo := i.ToGoBigInt()
-	return Ref(ToElkBigInt(iGo.Lsh(iGo, uint(other))))
+	return Ref(ToElkBigInt((&big.Int{}).Lsh(i.ToGoBigInt(), uint(other))))
 }
 
 func leftBitshiftBigIntUnsigned[T SimpleInt](i *BigInt, other T) *BigInt {
-	iGo := i.ToGoBigInt()
-	return ToElkBigInt(iGo.Lsh(iGo, uint(other)))
+	return ToElkBigInt((&big.Int{}).Lsh(i.ToGoBigInt(), uint(other)))
 }
 
 // Bitshift to the left by another integer value and return an error
